@@ -9,8 +9,10 @@ import (
 	"path/filepath"
 	"sort"
 	"strings"
+	"sync"
 	"sync/atomic"
 	"syscall"
+	"time"
 
 	"github.com/glebziz/fs_db/pkg/verif"
 
@@ -26,18 +28,24 @@ func init() {
 		ID: "C04", Level: "fault_enumeration",
 		Rule:        "crash-point enumeration: a child process runs a seeded sequential workload (autocommit Set/SetReader/Create/Delete, ReadCommitted and RepeatableRead transactions with multi-key write sets, commits, rollbacks, conflicts, collector passes and worker-pool drains) on the real inline database, logging 'B i' before and 'E i <class>' after every client operation to an unbuffered file; a hook handler counts the persistent-mutation points (directory/file create/remove, every content file write and close, every Badger set/delete/transaction, the steps of Set, of the commit and of the cleaner) and kills the process with SIGKILL at the N-th. A first run without a kill learns the points; then one run per selected N. A fresh verify process opens the database, dumps GetKeys and every content, closes, opens and dumps again; further variants kill the recovery itself at its n-th mutation point and verify again, and continue writing after recovery. Oracle: with A = model state after all acknowledged operations and A' = A plus the single in-flight operation applied completely, each dump must equal A or A' exactly (keys and complete contents), both dumps must agree, every listed key must be readable. evaluations = crash runs verified; distinct_nontrivial = distinct (point name, in-flight operation kind, ordinal of the point within the operation) crash sites",
 		Assumptions: []string{"a Badger Update is atomic and durable under SIGKILL of the process (page cache survives; power loss is out of scope)", "reference model refmodel"},
-		Roles:       map[string]Role{"main": {N: func(t string) int { return c04Shards * tierN(t, 2, 12) }, Case: c04Case}},
+		Roles: map[string]Role{
+			"main":       {N: func(t string) int { return c04Shards * tierN(t, 2, 12) }, Case: c04Case},
+			"randomkill": {N: func(t string) int { return tierN(t, 32, 400) }, Case: c04RandomKill},
+		},
 	})
 }
 
 type crashSpec struct {
-	Mode   string        `json:"mode"` // run | verify
-	Dir    string        `json:"dir"`
-	Steps  []seqrun.Step `json:"steps"`
-	KillAt int64         `json:"kill_at"` // 0 = never
-	Log    string        `json:"log"`
-	Out    string        `json:"out"`
-	Points bool          `json:"points"` // record the point sequence
+	Clients       [][]seqrun.Step `json:"clients,omitempty"` // mode stress: one step list per client (disjoint keys)
+	KillAfterAcks int64           `json:"kill_after_acks,omitempty"`
+	KillDelayUs   int64           `json:"kill_delay_us,omitempty"`
+	Mode          string          `json:"mode"` // run | verify
+	Dir           string          `json:"dir"`
+	Steps         []seqrun.Step   `json:"steps"`
+	KillAt        int64           `json:"kill_at"` // 0 = never
+	Log           string          `json:"log"`
+	Out           string          `json:"out"`
+	Points        bool            `json:"points"` // record the point sequence
 }
 
 type crashDump struct {
@@ -126,6 +134,45 @@ func crashChildMain(args []string) int {
 		if err := env.Close(); err != nil {
 			out.Err = "close: " + err.Error()
 		}
+	case "stress":
+		// concurrent clients on disjoint keys, a collector actor; the process kills itself a seeded
+		// delay after the N-th acknowledged operation: the kill lands anywhere, also inside Badger
+		var acks atomic.Int64
+		go func() {
+			for acks.Load() < sp.KillAfterAcks {
+				time.Sleep(20 * time.Microsecond)
+			}
+			time.Sleep(time.Duration(sp.KillDelayUs) * time.Microsecond)
+			syscall.Kill(os.Getpid(), syscall.SIGKILL)
+		}()
+		go func() {
+			for {
+				env.Collect()
+				time.Sleep(300 * time.Microsecond)
+			}
+		}()
+		var wg sync.WaitGroup
+		for ci, steps := range sp.Clients {
+			wg.Add(1)
+			go func(ci int, steps []seqrun.Step) {
+				defer wg.Done()
+				lf, _ := os.OpenFile(fmt.Sprintf("%s.%d", sp.Log, ci), os.O_CREATE|os.O_WRONLY|os.O_APPEND, 0o644)
+				r := seqrun.NewRunner(env, seqrun.Options{})
+				for i, s := range steps {
+					rt.Beat()
+					fmt.Fprintf(lf, "B %d\n", i)
+					if m := r.Do(i, s); m != nil {
+						fmt.Fprintf(lf, "M %d %s\n", i, m.Error())
+						return
+					}
+					fmt.Fprintf(lf, "E %d\n", i)
+					acks.Add(1)
+				}
+			}(ci, steps)
+		}
+		wg.Wait()
+		// not killed: the workload was shorter than the kill point
+		env.Close()
 	case "verify":
 		for round := 0; round < 2; round++ {
 			var d crashDump
@@ -531,4 +578,117 @@ func classifyCrashDiff(got, a, b crashDump) string {
 		return "acknowledged-lost-or-uncommitted-exposed"
 	}
 	return "recovered-state-wrong"
+}
+
+// c04RandomKill: concurrent clients on disjoint key sets; the child kills itself at a seeded
+// moment (not at a hook point); per-client oracle from per-client acknowledgement logs.
+func c04RandomKill(tier string, seed int64, idx int, scratch string) rt.CaseResult {
+	var c rt.CaseResult
+	os.MkdirAll(scratch, 0o755)
+	rng := seqrun.Rng(seed, "C04rk", idx)
+	nclients := 2 + rng.Intn(3)
+	var clients [][]seqrun.Step
+	var keysets [][]string
+	for ci := 0; ci < nclients; ci++ {
+		keys := []string{fmt.Sprintf("c%d-a", ci), fmt.Sprintf("c%d-b", ci)}
+		keysets = append(keysets, keys)
+		p := seqrun.Profile{
+			Steps: 60, Keys: keys, Lens: []int{10, 10, 20000}, MaxOpen: 1, TxBias: 75, Levels: []int{0, 1, 2},
+			TagPrefix: fmt.Sprintf("k%d-c%d-", idx, ci),
+			W:         map[string]int{"begin": 12, "set": 30, "delete": 6, "commit": 12, "rollback": 3, "create": 3, "get": 3},
+		}
+		clients = append(clients, seqrun.Generate(seqrun.Rng(seed, "C04rk-c", idx*10+ci), p))
+	}
+	dir := filepath.Join(scratch, "db")
+	logp := filepath.Join(scratch, "ack.log")
+	killAfter := int64(5 + rng.Intn(nclients*45))
+	_, killed, clog := runCrashChild(scratch, crashSpec{Mode: "stress", Dir: dir, Clients: clients, Log: logp, KillAfterAcks: killAfter, KillDelayUs: int64(rng.Intn(3000))}, 1)
+	if !killed {
+		c.Inconclusive = append(c.Inconclusive, "stress child was not killed: "+tailStr(clog, 300))
+		return c
+	}
+	vo, vkilled, vlog := runCrashChild(scratch, crashSpec{Mode: "verify", Dir: dir}, 2)
+	os.RemoveAll(dir)
+	c.Evals++
+	replay := map[string]any{"seed": seed, "case": idx, "clients": clients, "kill_after_acks": killAfter}
+	if vkilled || vo.Err != "" || len(vo.Dumps) < 2 {
+		if strings.Contains(vlog, "while opening memtables") && strings.Contains(vlog, "Create a new file") {
+			c.Violate("recovery-failed badger-zero-length-memtable-file", "the database does not open after the kill (zero-length memtable file left by Badger)", replay)
+		} else if strings.Contains(vlog, "panic:") || vo.Err != "" {
+			replay["verify_log"] = vlog
+			c.Violate("recovery-failed random-kill", "after a kill at a seeded moment the database does not open/recover: "+vo.Err+" "+firstWords(vlog, 30), replay)
+		} else {
+			c.Inconclusive = append(c.Inconclusive, "verify child failed: "+tailStr(vlog, 300))
+		}
+		return c
+	}
+	replay["recovered"] = vo.Dumps
+	if !sameDump(vo.Dumps[0], vo.Dumps[1]) {
+		c.Violate("second-open-differs random-kill", "the state after the first reopen and after the second differ", replay)
+		return c
+	}
+	got := vo.Dumps[0]
+	for ci, steps := range clients {
+		acked, inflight := -1, -1
+		mism := ""
+		if f, err := os.Open(fmt.Sprintf("%s.%d", logp, ci)); err == nil {
+			sc := bufio.NewScanner(f)
+			for sc.Scan() {
+				var k string
+				var i int
+				fmt.Sscanf(sc.Text(), "%s %d", &k, &i)
+				switch k {
+				case "B":
+					inflight = i
+				case "E":
+					acked, inflight = i, -1
+				case "M":
+					mism = sc.Text()
+				}
+			}
+			f.Close()
+		}
+		if mism != "" {
+			c.Violate("mismatch-before-kill random-kill", "client "+fmt.Sprint(ci)+" saw a wrong result before the kill: "+mism, replay)
+			return c
+		}
+		mA := refmodel.New()
+		replayModel(mA, steps[:acked+1])
+		mB := mA.Clone()
+		op := "none"
+		if inflight >= 0 {
+			replayModel(mB, steps[inflight:inflight+1])
+			op = steps[inflight].Op
+		}
+		mA.Reopen()
+		mB.Reopen()
+		dA, dB := modelDump(mA), modelDump(mB)
+		sub := crashDump{Vals: map[string]string{}}
+		for _, k := range got.Keys {
+			for _, mine := range keysets[ci] {
+				if k == mine {
+					sub.Keys = append(sub.Keys, k)
+					sub.Vals[k] = got.Vals[k]
+				}
+			}
+		}
+		switch {
+		case sameDump(sub, dA) && sameDump(sub, dB):
+			c.Count("rk_inflight_invisible_either_way", 1)
+		case sameDump(sub, dA):
+			c.Count("rk_inflight_not_applied", 1)
+		case sameDump(sub, dB):
+			c.Count("rk_inflight_applied", 1)
+		default:
+			replay["client"], replay["acknowledged_through_step"], replay["in_flight_step"] = ci, acked, inflight
+			replay["expected_A"], replay["expected_A_plus_inflight"], replay["recovered_for_client"] = dA, dB, sub
+			c.Violate(classifyCrashDiff(sub, dA, dB)+" random-kill op="+op, fmt.Sprintf("after a kill at a seeded moment client %d's keys are neither in the acknowledged state nor in that plus its whole in-flight %s", ci, op), replay)
+			return c
+		}
+		c.AddDistinct(fmt.Sprintf("rk/%s/acks=%d", op, (acked+1)/10*10))
+	}
+	if idx == 0 {
+		c.Sample = map[string]any{"mode": "random kill", "clients": nclients, "kill_after_acks": killAfter, "first_client_steps": sampleSteps(clients[0], 8)}
+	}
+	return c
 }
